@@ -23,6 +23,8 @@ typedef struct {
 	uint16_t          port;
 	int               af; // address family
 	bool              closed;
+	bool              busy;      // a resolve or connect is in flight
+	bool              abandoned; // ... whose requester went away
 	nng_sockaddr      sa;
 	nni_tcp_dialer   *d;      // platform dialer implementation
 	nni_aio           resaio; // resolver aio
@@ -42,7 +44,12 @@ tcp_dial_cancel(nni_aio *aio, void *arg, nng_err rv)
 		nni_aio_list_remove(aio);
 		nni_aio_finish_error(aio, rv);
 
-		if (nni_list_empty(&d->conaios)) {
+		if (nni_list_empty(&d->conaios) && d->busy) {
+			// The attempt in flight belongs to nobody now; a
+			// dial that arrives before its callback has run
+			// must not inherit its (canceled) outcome, nor
+			// start over on aios that are still active.
+			d->abandoned = true;
 			nni_aio_abort(&d->conaio, NNG_ECANCELED);
 			nni_aio_abort(&d->resaio, NNG_ECANCELED);
 		}
@@ -53,9 +60,10 @@ tcp_dial_cancel(nni_aio *aio, void *arg, nng_err rv)
 static void
 tcp_dial_start_next(tcp_dialer *d)
 {
-	if (nni_list_empty(&d->conaios)) {
+	if (d->busy || nni_list_empty(&d->conaios)) {
 		return;
 	}
+	d->busy = true;
 	memset(&d->resolv, 0, sizeof(d->resolv));
 	d->resolv.ri_family  = d->af;
 	d->resolv.ri_passive = false;
@@ -74,8 +82,16 @@ tcp_dial_res_cb(void *arg)
 	int         rv;
 
 	nni_mtx_lock(&d->mtx);
+	if (d->abandoned && !d->closed) {
+		d->abandoned = false;
+		d->busy      = false;
+		tcp_dial_start_next(d);
+		nni_mtx_unlock(&d->mtx);
+		return;
+	}
 	if (d->closed || ((aio = nni_list_first(&d->conaios)) == NULL)) {
 		// ignore this.
+		d->busy = false;
 		while ((aio = nni_list_first(&d->conaios)) != NULL) {
 			nni_list_remove(&d->conaios, aio);
 			nni_aio_finish_error(aio, NNG_ECLOSED);
@@ -89,6 +105,7 @@ tcp_dial_res_cb(void *arg)
 		nni_aio_finish_error(aio, rv);
 
 		// try DNS again for next connection...
+		d->busy = false;
 		tcp_dial_start_next(d);
 
 	} else {
@@ -107,7 +124,8 @@ tcp_dial_con_cb(void *arg)
 
 	nni_mtx_lock(&d->mtx);
 	rv = nni_aio_result(&d->conaio);
-	if ((d->closed) || ((aio = nni_list_first(&d->conaios)) == NULL)) {
+	if ((d->closed) || (d->abandoned) ||
+	    ((aio = nni_list_first(&d->conaios)) == NULL)) {
 		if (rv == 0) {
 			// Make sure we discard the underlying connection.
 			nng_stream_close(nni_aio_get_output(&d->conaio, 0));
@@ -115,9 +133,15 @@ tcp_dial_con_cb(void *arg)
 			nng_stream_free(nni_aio_get_output(&d->conaio, 0));
 			nni_aio_set_output(&d->conaio, 0, NULL);
 		}
+		d->abandoned = false;
+		d->busy      = false;
+		if (!d->closed) {
+			tcp_dial_start_next(d);
+		}
 		nni_mtx_unlock(&d->mtx);
 		return;
 	}
+	d->busy = false;
 	nni_list_remove(&d->conaios, aio);
 	if (rv != 0) {
 		nni_aio_finish_error(aio, rv);
